@@ -307,7 +307,8 @@ func (d *Dumper) call(v reflect.Value, i int, name string, depth int) {
 			d.b.WriteString("<panic>")
 		}
 	}()
-	if templateAccessors[name] || (name == "Parent" && attributeTypes[v.Type().String()]) {
+	// the body of an extension statement is kept as written, never expanded or compiled
+	if templateAccessors[name] || (name == "Parent" && attributeTypes[v.Type().String()]) || v.Type().String() == "*meta.Extension" {
 		d.inTemplate++
 		defer func() { d.inTemplate-- }()
 	}
